@@ -271,6 +271,46 @@ def broken_peer_audits(ctx):
     ctx.evaluations += len(cases)
 
 
+def ssh1_mask_audits(ctx):
+    """The SSH-1 name tables and the SSH-1 rating table agree as the audit USES them: whatever bits a peer sets in its cipher and authentication masks,
+    every name the report shows is one the SSH-1 rating table knows (no 'unknown algorithm'), in the text and in the JSON report."""
+    import canon
+    import peers as P
+    import runner
+    from ssh_audit.ssh1_kexdb import SSH1_KexDB
+    db = SSH1_KexDB.MASTER_DB
+    masks = [(0xffffffff, 0xffffffff), (0x7f, 0x7f), (0x01, 0x01), (0x7e, 0x3f)] + ([] if ctx.quick else [(1 << i, 1 << j) for i in range(8) for j in range(8)])
+    cases = [(c, a, o) for (c, a) in masks for o in (['-n'], ['-j'])]
+
+    def do(z, case):
+        c, a, o = case
+        srv = P.Server(P.Ssh1Server({'cmask': c, 'amask': a}))
+        try:
+            return z.run(o + ['-1', '--skip-rate-test', '-t', '2', '127.0.0.1:%d' % srv.port], timeout=60)
+        finally:
+            srv.shutdown()
+    with runner.Pool(8) as pool:
+        outs = pool.map(do, cases)
+    for (c, a, o), r in zip(cases, outs):
+        desc = {'op': 'ssh1-mask-audit', 'cmask': c, 'amask': a, 'opts': o}
+        try:
+            if o == ['-j']:
+                d = canon.load_json(r['out'])
+                names = [('enc', x) for x in (d.get('enc') or [])] + [('aut', x) for x in (d.get('aut') or [])]
+                names = [(cat, x['algorithm'] if isinstance(x, dict) else x) for cat, x in names]
+            else:
+                names = [(al['cat'], al['name']) for al in canon.parse_text(r['out'])['algs'] if al['cat'] in ('enc', 'aut')]
+        except (canon.CanonError, KeyError, TypeError) as e:
+            ctx.violation('ssh1-mask-audit/no-report', 'SSH-1 audit with masks %#x / %#x: exit %r, %s' % (c, a, r['rc'], e), desc)
+            continue
+        for cat, n in names:
+            if n not in db.get(cat, {}):
+                ctx.violation('ssh1-table-name-unknown-to-rating-table/%s/%s' % (cat, n), 'the SSH-1 audit of a peer with masks %#x / %#x reports the %s %r, which the SSH-1 rating table does not know' % (c, a, cat, n), desc)
+        if 'unknown algorithm' in canon.strip_ansi(r['out']):
+            ctx.violation('ssh1-unknown-algorithm-shown', 'the SSH-1 audit of a peer with masks %#x / %#x shows an unknown algorithm: the name tables and the rating table disagree' % (c, a), desc)
+    ctx.evaluations += len(cases)
+
+
 def model_failures(ctx):
     """When a C17 theorem no longer builds: ask the model for its offender lists (the counter-examples)."""
     out = {}
@@ -287,6 +327,7 @@ def run(ctx):
     oracle(ctx)
     policy_peer_audits(ctx)
     broken_peer_audits(ctx)
+    ssh1_mask_audits(ctx)
     if not ok:
         ctx.extra['model_offender_lists'] = model_failures(ctx)
         for b in ctx.broken:
